@@ -38,10 +38,12 @@ def render_task(ns: str, name: str, tdef: dict, ver: int, extra_opts: Optional[d
         opts.append(f"{k}={val!r}")
     for k, val in (extra_opts or {}).items():
         opts.append(f"{k}={val!r}")
+    if v["kind"] == "noexec":
+        opts.append('executor="no_such_executor"')
     takes_h = bool(tdef.get("h"))
     lines = [f"@task({', '.join(opts)})", f"def {name}({'h, ' if takes_h else ''}x):"]
     lines.append(f"    # version {ver}")
-    if v["kind"] == "leaf":
+    if v["kind"] in ("leaf", "noexec"):
         lines.append(f"    return x + {v['add']}")
     elif v["kind"] == "fail":
         lines.append(f'    raise ValueError("boom:{name}:%s" % (x,))')
@@ -187,7 +189,8 @@ def random_program(rng, ns: str, max_kids: int = 4, p_fail: float = 0.25, plan: 
                                                 {"kind": "leaf", "add": 11, "children": []}]},
         "leaf2": {"units": units(0.4), "vers": [{"kind": "leaf", "add": 2, "children": []}]},
         "use": {"units": units(0.6), "h": 1, "vers": [{"kind": "leaf", "add": 4, "children": []}]},
-        "bad": {"units": units(0.5), "vers": [{"kind": "fail", "add": 0, "children": []},
+        "bad": {"units": units(0.5), "vers": [{"kind": "fail" if rng.random() < 0.7 else "noexec", "add": 0,
+                                                "children": []},
                                                {"kind": "leaf", "add": 3, "children": []}]},
         "mid": {"units": units(0.15),
                 "vers": [{"kind": "calls", "add": 0, "children": kids(leafs, rng.randint(1, 3))},
